@@ -517,8 +517,175 @@ func CheckC20(run *evid.Run) {
 			run.Sample(wit())
 		}
 	})
+	c20SlowRead(run)
+	c20RetryAfterFailedCreation(run)
 	// concurrent use of shared keystore instances on distinct ids, under the race detector
 	RunChildren(run, ChildOpts{Key: "C20race", Batches: pick(run.Tier, 2, 8), Race: true, RaceInScope: func(rep string) bool { return true }})
+}
+
+// slowDS answers the FIRST read of one key late: the answer is computed at once (so it reflects the state at that
+// moment) but handed back only after release.
+type slowDS struct {
+	ds.Datastore
+	mu      sync.Mutex
+	key     ds.Key
+	armed   bool
+	parked  chan struct{}
+	release chan struct{}
+}
+
+func (c *slowDS) park(k ds.Key) {
+	c.mu.Lock()
+	hit := c.armed && k == c.key
+	if hit {
+		c.armed = false
+	}
+	c.mu.Unlock()
+	if hit {
+		close(c.parked)
+		<-c.release
+	}
+}
+
+func (c *slowDS) Get(ctx context.Context, k ds.Key) ([]byte, error) {
+	v, err := c.Datastore.Get(ctx, k)
+	c.park(k)
+	return v, err
+}
+
+func (c *slowDS) Has(ctx context.Context, k ds.Key) (bool, error) {
+	v, err := c.Datastore.Has(ctx, k)
+	c.park(k)
+	return v, err
+}
+
+func (c *slowDS) GetSize(ctx context.Context, k ds.Key) (int, error) {
+	v, err := c.Datastore.GetSize(ctx, k)
+	c.park(k)
+	return v, err
+}
+
+// c20SlowRead: three parties. A read of an id is under way on one keystore (its datastore answer - "not there" - is
+// late); the key is created through ANOTHER keystore over the same datastore; a request that STARTS after the
+// creation returned must see the key, whatever the old read is doing.
+func c20SlowRead(run *evid.Run) {
+	ctx := context.Background()
+	n := pick(run.Tier, 24, 200)
+	for i := 0; i < n; i++ {
+		firstOp, laterOp := []string{"HasKey", "GetKey"}[i%2], []string{"HasKey", "GetKey"}[(i/2)%2]
+		sameInstance := (i/4)%3 != 2 // the later request on the instance with the pending read (2 of 3) or on a third instance
+		id := fmt.Sprintf("slow-%d-%d", run.Seed, i)
+		d := &slowDS{Datastore: dssync.MutexWrap(ds.NewMapDatastore()), key: ds.NewKey(id), armed: true, parked: make(chan struct{}), release: make(chan struct{})}
+		k1, _ := keystore.NewKeystore(d)
+		k2, _ := keystore.NewKeystore(d)
+		k3, _ := keystore.NewKeystore(d)
+		wit := func() map[string]any {
+			return map[string]any{"id": id, "pending_read": firstOp, "later_request": laterOp, "later_request_on_the_instance_with_the_pending_read": sameInstance}
+		}
+		ask := func(k *keystore.Keystore, op string) (bool, []byte) {
+			if op == "HasKey" {
+				has, _ := k.HasKey(ctx, id)
+				return has, nil
+			}
+			p, err := k.GetKey(ctx, id)
+			if err != nil || p == nil {
+				return false, nil
+			}
+			return true, rawKey(p)
+		}
+		aDone := make(chan struct{})
+		go func() { defer close(aDone); ask(k1, firstOp) }()
+		select {
+		case <-d.parked:
+		case <-time.After(20 * time.Second):
+			run.Inconclusive("C20 slow-read scenario: the first read never reached the datastore")
+			close(d.release)
+			<-aDone
+			continue
+		}
+		created, err := k2.CreateKey(ctx, id)
+		if err != nil {
+			run.Violate("C20/createkey-error", det(), wit(), "CreateKey failed: %v", err)
+			close(d.release)
+			<-aDone
+			continue
+		}
+		type ans struct {
+			has bool
+			raw []byte
+		}
+		cDone := make(chan ans, 1)
+		target := k1
+		if !sameInstance {
+			target = k3
+		}
+		go func() { h, r := ask(target, laterOp); cDone <- ans{h, r} }()
+		var got ans
+		waited := false
+		select {
+		case got = <-cDone:
+		case <-time.After(300 * time.Millisecond):
+			// the later request is waiting for the old read: let that one finish, then look at the answer
+			waited = true
+			close(d.release)
+			got = <-cDone
+		}
+		if !waited {
+			close(d.release)
+		}
+		<-aDone
+		run.Count("requests_started_after_a_creation_that_overtook_a_pending_read", 1)
+		dd := det("pending_read", firstOp, "later_request", laterOp, "same_instance", sameInstance)
+		if !got.has {
+			run.Violate("C20/haskey-false-for-created", dd, wit(), "%s(%q), started after CreateKey on another keystore over the same datastore had returned, reports the key absent (a read of the same id that began BEFORE the creation was still pending)", laterOp, id)
+		} else if laterOp == "GetKey" && !bytes.Equal(got.raw, rawKey(created)) {
+			run.Violate("C20/getkey-different", dd, wit(), "GetKey(%q) after the creation returns another key", id)
+		}
+		run.Eval(1)
+		run.NonTrivial(fmt.Sprintf("slow-read/%s/%s/%v", firstOp, laterOp, sameInstance))
+	}
+}
+
+// c20RetryAfterFailedCreation: the application keeps ONE options value; the n-th datastore write of the first
+// CreateIdentity fails, the application tries again with the same value. What it gets must be the identity that fresh
+// options (and a keystore opened afterwards) give for that id.
+func c20RetryAfterFailedCreation(run *evid.Run) {
+	ctx := context.Background()
+	n := pick(run.Tier, 30, 300)
+	for i := 0; i < n; i++ {
+		failAt := int64(1 + i%3)
+		name := fmt.Sprintf("retry-%d-%d", run.Seed, i)
+		d := &countingDS{Datastore: dssync.MutexWrap(ds.NewMapDatastore())}
+		var puts int64
+		d.failPut = func(k ds.Key) bool { return atomic.AddInt64(&puts, 1) == failAt }
+		ks, _ := keystore.NewKeystore(d)
+		opts := &idp.CreateIdentityOptions{Keystore: ks, ID: name, Type: "orbitdb"}
+		wit := func() map[string]any { return map[string]any{"id": name, "failing_datastore_write": failAt} }
+		first, err := idp.CreateIdentity(ctx, opts)
+		var got *idp.Identity
+		if err != nil {
+			run.Count("identity_creations_that_failed_at_an_injected_write_and_were_retried", 1)
+			got, err = idp.CreateIdentity(ctx, opts)
+			if err != nil {
+				run.Violate("C20/identity-retry-error", det("failing_write", failAt), wit(), "the retry of CreateIdentity(%q) with the same options failed: %v", name, err)
+				continue
+			}
+		} else {
+			got = first
+		}
+		ks2, _ := keystore.NewKeystore(d)
+		refID, err := idp.CreateIdentity(ctx, &idp.CreateIdentityOptions{Keystore: ks2, ID: name, Type: "orbitdb"})
+		if err != nil {
+			run.Violate("C20/identity-retry-error", det("failing_write", failAt), wit(), "CreateIdentity(%q) on a keystore opened afterwards failed: %v", name, err)
+			continue
+		}
+		if df := identityDiff(got, refID); df != "" {
+			run.Violate("C20/identity-differs", det("failing_write", failAt, "after", "retry with the same options value"), wit(), "the identity obtained for %q by retrying with the same options value differs from the one fresh options give: %s", name, df)
+		}
+		checkIdentity(run, got, name, wit)
+		run.Eval(1)
+		run.NonTrivial(fmt.Sprintf("retry/%d", failAt))
+	}
 }
 
 func init() {
